@@ -48,7 +48,18 @@ def function_level(chk, rng, binp):
         if rng.chance(1, 8):
             body = bytes(rng.below(256) for _ in range(rng.below(40)))
         ct = rng.pick(["application/json; charset=utf-16", "application/json; charset=UTF-16", "text/json;charset=utf-16"])
-        lines.append(f"utf16 {hx(ct)} {hx(body)}"); mlines.append("trunc utf16 " + hx(body)); meta.append(("utf16", body))
+        lines.append(f"utf16 {hx(ct)} {hx(body) if body else '-'}"); mlines.append("trunc utf16 " + (hx(body) if body else "-")); meta.append(("utf16", body))
+    # xml_escape (status text and event fields pass through it): markup characters after multi-byte characters
+    for i in range(n // 2):
+        alphabet = ["a", "&", "<", ">", '"', "'", "é", "日", "😀", "]]>", " ", "&amp;"]
+        t = "".join(rng.pick(alphabet) for _ in range(rng.rand_range(0, 12)))
+        lines.append("xmlesc " + (hx(t) if t else "-")); mlines.append("xmlesc " + (hx(t) if t else "-")); meta.append(("xmlesc", t))
+    # very short bodies, and hosts whose first data frame is one byte (or another odd prefix) long: only "no panic" is compared
+    ct = "application/json; charset=utf-16"
+    for body, split in [(b"", None), (b"{", None), (b"{\x00", None), (b"{\x00}", None), (b"{\x00}\x00", 1), (b"{\x00}\x00", 3),
+                        ('{"k":1}'.encode("utf-16-le"), 1), (b"\xff\xfe" + '{"k":1}'.encode("utf-16-le"), 1)]:
+        lines.append(f"utf16 {hx(ct)} {hx(body) if body else '-'}" + (f" {split}" if split is not None else ""))
+        mlines.append(None); meta.append(("utf16-frames", body))
     sd = vlib.scratch_dir("c13")
     os.makedirs(sd + "/ev")
     rc, so, se = vlib.run_harness(binp, "trunc", "\n".join(lines) + "\n", env={"VERIF_OUT": sd + "/o.txt", "VERIF_EVENT_DIR": sd + "/ev"}, cwd=sd,
@@ -91,6 +102,9 @@ def function_level(chk, rng, binp):
             got = unhx(io)
             if len(got) > 1024 + 3:
                 chk.violation("status message longer than cap+3", {"len": len(got)})
+        elif kind == "xmlesc":
+            if io != mo:
+                chk.disagreement("xml-escape", {"text": t}, mo, io)
         elif kind == "utf16":
             units = [int(x) for x in mo.split(" ")] if mo else []
             text = b"".join(u.to_bytes(2, "little") for u in units).decode("utf-16-le", "replace")
